@@ -28,6 +28,8 @@ import (
 )
 
 type c9VProg struct {
+	WF    bool     `json:"wf,omitempty"`    // produced by the well-formed generator (vprog2.go)
+	Shape string   `json:"shape,omitempty"` // operator sequence of a well-formed program
 	Src   string   `json:"src"`
 	Feats []string `json:"feats"` // operator/expression node kinds (for signatures and distribution)
 	Unord bool     `json:"unord"` // output order not defined (fork)
@@ -113,13 +115,26 @@ func runVPJob(j *c9VPJob, from int, cb func(sub int, label string, f func() any)
 			select {
 			case x := <-ch:
 				r.VecOut, r.VecCErr, r.VecErr = x.out, x.cerr, x.rerr
-			case <-time.After(watchdog(40)):
+			case <-time.After(watchdog(10)):
 				r.VecErr = "HANG: no result within the watchdog"
 			}
-			so, serr := RunQuery(p.Src, j.Input)
-			r.SeqOut = so
-			if serr != nil {
-				r.SeqErr = serr.Error()
+			type sr struct {
+				out []string
+				err error
+			}
+			sch := make(chan sr, 1)
+			go func() {
+				so, serr := RunQuery(p.Src, j.Input)
+				sch <- sr{so, serr}
+			}()
+			select {
+			case x := <-sch:
+				r.SeqOut = x.out
+				if x.err != nil {
+					r.SeqErr = x.err.Error()
+				}
+			case <-time.After(watchdog(20)):
+				r.SeqErr = "HANG: the sequential runtime gave no result within the watchdog"
 			}
 			return r
 		})
@@ -159,9 +174,14 @@ func genVInput(r *Rng, force string) (string, string) {
 		f["t"] = Pick(r, []string{"true", "false"})
 		f["r"] = fmt.Sprintf("{x:%d,y:%q}", r.Intn(4), strs[r.Intn(3)])
 		arr := []string{}
-		for k := r.Intn(4); k > 0; k-- {
+		for k := Pick(r, []int{0, 1, 1, 2, 3, 3, 4, 6}); k > 0; k-- {
 			arr = append(arr, fmt.Sprint(r.Intn(9)))
 		}
+		var sa []string
+		for k := Pick(r, []int{1, 1, 2, 3, 4, 5}); k > 0; k-- {
+			sa = append(sa, fmt.Sprintf("%q", Pick(r, []string{"p", "q", "r", "s", "t", "a", "zz"})))
+		}
+		f["sa"] = "[" + strings.Join(sa, ",") + "]"
 		f["arr"] = "[" + strings.Join(arr, ",") + "]"
 		if len(arr) == 0 {
 			f["arr"] = "[]([int64])"
@@ -173,14 +193,14 @@ func genVInput(r *Rng, force string) (string, string) {
 			f["a"] = fmt.Sprint(i*13 - 1700)
 			f["s"] = fmt.Sprintf("\"w%d\"", i)
 		case "nulls":
-			for _, k := range []string{"a", "b", "u", "f", "s", "s2", "t", "arr"} {
+			for _, k := range []string{"a", "b", "u", "f", "s", "s2", "t", "arr", "sa"} {
 				if r.Chance(1, 4) {
-					ty := map[string]string{"a": "int64", "b": "int64", "u": "uint64", "f": "float64", "s": "string", "s2": "string", "t": "bool", "arr": "[int64]"}[k]
+					ty := map[string]string{"a": "int64", "b": "int64", "u": "uint64", "f": "float64", "s": "string", "s2": "string", "t": "bool", "arr": "[int64]", "sa": "[string]"}[k]
 					f[k] = "null(" + ty + ")"
 				}
 			}
 		case "missing":
-			for _, k := range []string{"a", "b", "s", "r", "arr", "f"} {
+			for _, k := range []string{"a", "b", "s", "r", "arr", "f", "sa"} {
 				if r.Chance(1, 4) {
 					delete(f, k)
 				}
@@ -206,7 +226,7 @@ func genVInput(r *Rng, force string) (string, string) {
 			f["f"] = Pick(r, []string{"0.", "-0.", "2.5"})
 		}
 		var fs []string
-		for _, k := range []string{"a", "b", "u", "f", "s", "s2", "t", "r", "arr"} {
+		for _, k := range []string{"a", "b", "u", "f", "s", "s2", "t", "r", "arr", "sa"} {
 			if v, ok := f[k]; ok {
 				fs = append(fs, k+":"+v)
 			}
@@ -467,23 +487,9 @@ func (g *eg) op() string {
 
 func genVProg(r *Rng) c9VProg {
 	g := &eg{r: r, feats: map[string]bool{}}
-	n := 1
-	if r.Chance(1, 3) {
-		n = 2
-	}
-	if r.Chance(1, 10) {
-		n = 3
-	}
-	var ops []string
-	for i := 0; i < n; i++ {
-		ops = append(ops, g.op())
-	}
-	p := c9VProg{Src: strings.Join(ops, " | ")}
-	if r.Chance(1, 30) {
-		g.feat("op:fork")
-		p.Src = "fork (=> " + g.op() + " => " + g.op() + ")"
-		p.Unord = true
-	}
+	// one operator: this generator explores the expression language (and the
+	// constructs with known findings); operator sequences come from vprog2.go
+	p := c9VProg{Src: g.op()}
 	for f := range g.feats {
 		p.Feats = append(p.Feats, f)
 	}
@@ -522,6 +528,8 @@ var fixedVProgs = []c9VProg{
 	fx("head 300"), fx("tail 300"),
 	fx("where a > f", "op:where", "cmp>", "f:a", "f:f"), fx("where u < b", "op:where", "cmp<", "f:u", "f:b"), fx("where s < s2", "op:where", "cmp<", "f:s", "f:s2"),
 	fx("where t", "op:where", "f:t"),
+	fx("where a > 1 | yield a", "op:where", "op:yield", "f:a", "cmp>"), fx("head 2 | where b > 1", "op:head", "op:where", "f:b", "cmp>"),
+	fx("where a > 1 | rename z:=a", "op:where", "op:rename", "cmp>"), fx("tail 2 | cut f,s", "op:tail", "op:cut"),
 	fx("yield f==1.5, f!=1.5, f<2., f<=2., f>2., f>=2.", "op:yield", "cmp-num"),
 	fx("yield u==2, u!=2, u<3, u<=3, u>1, u>=1", "op:yield", "cmp-num"),
 	fx(`yield s!="a", s<="B", s>"a", s>=s2, s==s2, s<s2, s<=s2, s!=s2`, "op:yield", "cmp-str"),
@@ -534,7 +542,7 @@ var fixedVProgs = []c9VProg{
 	fx(`where r.y == "a"`, "op:where", "cmp-str"), fx("where r.x > 1", "op:where", "cmp-num"), fx(`where s >= "B"`, "op:where", "cmp-str"),
 	fx("where arr[0] > 3", "op:where", "index-arr-where"),
 	fx("yield arr[0], arr[1], arr[-1]", "op:yield", "index-arr-plain"),
-	fx("put z:=a+b,w:=s,v:=f*2.", "op:put"), fx("put a:=s,s:=a", "op:put"), fx("cut a,r.y,f", "op:cut"), fx("cut x:=r.x,y:=arr", "op:cut-assign"),
+	fx("put z:=a+b,w:=s,v:=f*2.", "op:put", "arith+", "arith*"), fx("put a:=s,s:=a", "op:put"), fx("cut a,r.y,f", "op:cut"), fx("cut x:=r.x,y:=arr", "op:cut-assign"),
 	fx("drop s,s2,t,arr", "op:drop"), fx("drop r", "op:drop"), fx("rename r.w:=r.x", "op:rename"), fx("rename aa:=a,bb:=b,rr:=r", "op:rename"),
 	fx("sort b,a | head 2", "op:sort", "op:head"), fx("sort -s,a | tail 2", "op:sort", "op:tail"), fx("sort f | cut f", "op:sort", "op:cut"), fx("sort u,-a", "op:sort"),
 	fx("over arr", "op:over"), fx("yield len(s)+a, rune_len(s2)*2", "op:yield", "fn:len", "fn:rune_len"),
@@ -595,7 +603,7 @@ func constFields(input string) map[string]bool {
 			continue
 		}
 		n++
-		for _, f := range []string{"a", "b", "u", "f", "s", "s2", "t", "r", "arr"} {
+		for _, f := range []string{"a", "b", "u", "f", "s", "s2", "t", "r", "arr", "sa"} {
 			v, ok := fieldText(line, f)
 			if !ok {
 				v = "<missing>"
@@ -636,6 +644,59 @@ func vpTriggers(p c9VProg, input string) []string {
 			}
 		}
 		return false
+	}
+	if p.WF {
+		// well-formed programs contain no trigger construct by construction;
+		// the only input-dependent one is logic over a constant column
+		constCol := false
+		for f := range constFields(input) {
+			if has["f:"+f] || has["f:"+f+".x"] || has["f:"+f+".y"] {
+				constCol = true
+			}
+		}
+		var t []string
+		if (has["and"] || has["or"] || has["not"]) && constCol {
+			t = append(t, "const-bool-logic")
+		}
+		if has["wf-fork"] {
+			// forks of some pipelines hang or deadlock
+			t = append(t, "fork")
+		}
+		if has["lit-bool"] {
+			t = append(t, "const-bool-logic")
+		}
+		if has["scalar-logic"] && !has["const-bool-logic"] {
+			// and/or/not over `this` inside/after an over: a one-value
+			// scope is a constant vector (F-C09-6)
+			found := false
+			for _, x := range t {
+				found = found || x == "const-bool-logic"
+			}
+			if !found {
+				t = append(t, "const-bool-logic")
+			}
+		}
+		if has["wf-dynfn"] {
+			// replace() and coalesce() return a vector.Dynamic; a record
+			// built from it breaks the operators that follow
+			t = append(t, "dynfn-in-pipeline")
+		}
+		if has["scope-sort"] {
+			// a sort inside an over scope (may deadlock when a later operator sends done)
+			t = append(t, "scope-sort")
+		}
+		if has["scope-where"] {
+			// a where inside an over scope
+			t = append(t, "scope-where")
+		}
+		sort.Strings(t)
+		var u []string
+		for i, x := range t {
+			if i == 0 || x != t[i-1] {
+				u = append(u, x)
+			}
+		}
+		return u
 	}
 	var t []string
 	ops := strings.Split(p.Src, " | ")
@@ -678,20 +739,6 @@ func vpTriggers(p c9VProg, input string) []string {
 	if strings.Contains(p.Src, "put r.") {
 		t = append(t, "put-nested")
 	}
-	if has["op:fork"] {
-		t = append(t, "fork")
-	}
-	// later operators may refer to fields an earlier one removed or
-	// replaced by errors: only sort/head/tail prefixes are kept in the core
-	for _, op := range ops[:len(ops)-1] {
-		if !(strings.HasPrefix(op, "sort ") || strings.HasPrefix(op, "head ") || strings.HasPrefix(op, "tail ")) {
-			t = append(t, "pipeline")
-			break
-		}
-	}
-	if has["op:over"] && len(ops) > 1 {
-		t = append(t, "over-in-pipeline")
-	}
 	sort.Strings(t)
 	if len(t) > 1 {
 		// hex-base64 is named only when it is the sole trigger
@@ -711,21 +758,31 @@ func vpTriggers(p c9VProg, input string) []string {
 // there the two runtimes agree on the unchanged tree, so any failure is new.
 func vpSigBase(p c9VProg, vj *c9VPJob) (string, bool) {
 	trig := vpTriggers(p, vj.Input)
-	clean := strings.HasPrefix(vj.Class, "clean")
-	if clean && len(trig) == 0 {
-		return fmt.Sprintf("vprog:core:in=%s:%s", vj.Class, strings.Join(p.Feats, ",")), true
+	clean := strings.HasPrefix(vj.Class, "clean") || vj.Class == "thisarr"
+	x := xClasses(p)
+	// structural programs (no expression, no over) do not depend on the value
+	// classes: they are exact on every input class
+	if len(trig) == 0 && (clean || (p.WF && x == "none" && vj.Class != "missing" && vj.Class != "mixed")) {
+		what := strings.Join(p.Feats, ",")
+		if p.WF {
+			what = "wf:" + p.Shape
+		}
+		return fmt.Sprintf("vprog:core:in=%s:%s", vj.Class, what), true
 	}
 	t := "none"
 	if len(trig) > 0 {
 		t = strings.Join(trig, "+")
 	}
-	return fmt.Sprintf("vprog:ext:in=%s:trig=%s", vj.Class, t), false
+	return fmt.Sprintf("vprog:ext:in=%s:trig=%s:x=%s", vj.Class, t, x), false
 }
 
 func c09VProg(o Opts, rng *Rng, res *Result) error {
-	njobs, nprogs, nfixed := 40, 12, 8
+	njobs, nprogs, nwf, nfixed := 40, 6, 14, 8
 	if o.Tier == "thorough" {
-		njobs, nprogs, nfixed = 900, 20, 60
+		njobs, nprogs, nwf, nfixed = 900, 10, 24, 60
+	}
+	if s := os.Getenv("C09_VPROG_JOBS"); s != "" {
+		fmt.Sscan(s, &njobs)
 	}
 	var jobs []c9Job
 	for i := 0; i < njobs; i++ {
@@ -738,18 +795,47 @@ func c09VProg(o Opts, rng *Rng, res *Result) error {
 		if i < nfixed {
 			j.Progs = append(j.Progs, fixedVProgs...)
 		}
+		if i < nfixed || i%4 == 0 {
+			j.Progs = append(j.Progs, fixedScopePrograms("arr", false)...)
+			j.Progs = append(j.Progs, fixedScopePrograms("sa", true)...)
+		}
 		for k := 0; k < nprogs; k++ {
 			j.Progs = append(j.Progs, genVProg(rng))
 		}
+		nw := nwf
+		if class == "missing" || class == "mixed" {
+			nw = nwf / 3 // programs over these inputs often hang (F-C09-13): keep them few
+		}
+		for k := 0; k < nw; k++ {
+			if k%14 == 13 {
+				j.Progs = append(j.Progs, genWFFork(rng))
+			} else {
+				j.Progs = append(j.Progs, genWFProg(rng))
+			}
+		}
 		jobs = append(jobs, c9Job{Kind: "vprog", VP: j})
+		if i%5 == 0 {
+			// an input of top-level arrays for `over this`
+			tj := &c9VPJob{ID: i, Class: "thisarr", Input: genThisArrInput(rng)}
+			tj.Progs = append(tj.Progs, fixedScopePrograms("this", false)...)
+			for k := 0; k < nwf; k++ {
+				tj.Progs = append(tj.Progs, genThisArrProg(rng))
+			}
+			jobs = append(jobs, c9Job{Kind: "vprog", VP: tj})
+		}
 	}
 	outs, crashes, err := runJobs(o.Out, "vprog", jobs, 150*time.Second)
 	if err != nil {
 		return err
 	}
+	rechecks := 0
 	for i := range outs {
 		var r c9VPRun
 		if json.Unmarshal(outs[i].Data, &r) != nil || !strings.HasPrefix(r.VecErr, "HANG") {
+			continue
+		}
+		// at most a few isolated re-runs: many hangs at once are not load
+		if rechecks++; rechecks > 4 || os.Getenv("C09_NORECHECK") != "" {
 			continue
 		}
 		vj := jobs[outs[i].Job].VP
@@ -831,7 +917,7 @@ func c09VProg(o Opts, rng *Rng, res *Result) error {
 			continue
 		}
 		same := strings.Join(r.VecOut, "\n") == strings.Join(r.SeqOut, "\n")
-		sym := "differs"
+		sym := diffKind(r.VecOut, r.SeqOut)
 		if !same && strings.Join(SortedCopy(r.VecOut), "\n") == strings.Join(SortedCopy(r.SeqOut), "\n") {
 			if p.Unord {
 				same = true
